@@ -179,10 +179,23 @@ def augment_with_impl(text, impl_out):
     n = 0
     producing = ("add", "append", "setmass", "setcom", "setinertia", "setparams", "setframe", "dump",
                  "params", "getparent", "getframe", "getid", "call")
+    in_lua = False
     for line in text.splitlines():
         p = line.split()
+        if in_lua:
+            res.append(line)
+            if p and p[0] == "luaend":
+                in_lua = False
+            continue
         if not p:
             continue
+        if p[0] == "luafile":
+            in_lua = True
+            res.append(line); continue
+        if p[0] == "@model":
+            res.append(line); continue
+        if p[0] == "@impl":
+            res.append(line); continue
         if p[0] == "case":
             case = p[1]; n = 0
             res.append(line); continue
@@ -197,7 +210,7 @@ def augment_with_impl(text, impl_out):
     return "\n".join(res) + "\n"
 
 
-NONPRODUCING = {"case", "gravity", "q", "qd", "qdd", "tau", "fext", "poison", "impl", "#", "cs_new", "cs_bind", "cs_solver", "cs_actuation", "cs_vplus"}
+NONPRODUCING = {"case", "gravity", "q", "qd", "qdd", "tau", "fext", "poison", "impl", "#", "cs_new", "cs_bind", "cs_solver", "cs_actuation", "cs_vplus", "luaload", "luarm", "luafile", "luaend"}
 
 
 def split_lines(out):
